@@ -172,7 +172,8 @@ pub fn run_case(srv: &Server, case: &Case) -> Outcome {
     let mut refusal_then_accept = false;
     let mut seen_refusal = false;
     let mut first_refusal_kind = "";
-    for c in case.cmds.iter() {
+    let mut refused_idx: Vec<usize> = vec![];
+    for (ci, c) in case.cmds.iter().enumerate() {
         let line = render(c, &db_twin, &new_twin);
         let (r, msgs) = twin.send(&srv.node, line.trim());
         let entry = match &r {
@@ -181,6 +182,7 @@ pub fn run_case(srv: &Server, case: &Case) -> Outcome {
             _ => msgs.first().cloned().unwrap_or_else(|| "empty".to_string()),
         };
         if is_refusal(&r) {
+            refused_idx.push(ci);
             if !seen_refusal {
                 first_refusal_kind = if !msgs.is_empty() { "refusal-that-also-pushes-a-message" } else { "plain-refusal" };
             }
@@ -192,8 +194,65 @@ pub fn run_case(srv: &Server, case: &Case) -> Outcome {
     }
     let _ = twin.disconnect(&srv.node);
 
+    // what the property says outright: a refused command never shifts or replaces the entries of the others. The same
+    // commands without the refused ones, on a database prepared the same way, must produce the same entries for the rest
+    // (a refused command changes nothing: not the data, not the session)
+    let mut relation_fail: Option<(String, String)> = None;
+    // (one refused command at a time: the first. The commands after it stay, refused or not: their entries must not change)
+    refused_idx.truncate(1);
+    if !refused_idx.is_empty() && refused_idx.len() < case.cmds.len() {
+        let (db_r, new_r) = (format!("r{}x{}", pid, n), format!("nr{}x{}", pid, n));
+        prepare_db(srv, &db_r);
+        prepare_db(srv, &format!("{}b", db_r));
+        let mut s3 = Session::new();
+        let mut reduced: Vec<String> = vec![];
+        for (ci, c) in case.cmds.iter().enumerate() {
+            if refused_idx.contains(&ci) {
+                continue;
+            }
+            let line = render(c, &db_r, &new_r);
+            let (r, msgs) = s3.send(&srv.node, line.trim());
+            let entry = match &r {
+                Response::Error { msg } => msg.clone(),
+                Response::VersionError { msg, .. } => msg.clone(),
+                _ => msgs.first().cloned().unwrap_or_else(|| "empty".to_string()),
+            };
+            reduced.push(entry.replace(&db_r, "{DB}").replace(&new_r, "{NEW}"));
+        }
+        let _ = s3.disconnect(&srv.node);
+        let mask = |e: &String| -> String {
+            // operation ids (wall-clock nanoseconds) differ from run to run
+            let mut out = String::new();
+            let mut digits = String::new();
+            for ch in e.chars().chain(std::iter::once(' ')) {
+                if ch.is_ascii_digit() {
+                    digits.push(ch);
+                } else {
+                    if digits.len() >= 15 {
+                        out.push('#');
+                    } else {
+                        out.push_str(&digits);
+                    }
+                    digits.clear();
+                    out.push(ch);
+                }
+            }
+            out
+        };
+        let kept: Vec<String> = expected.iter().enumerate().filter(|(i, _)| !refused_idx.contains(i)).map(|(_, e)| mask(e)).collect();
+        let reduced_m: Vec<String> = reduced.iter().map(mask).collect();
+        if kept != reduced_m {
+            let which: Vec<&String> = refused_idx.iter().map(|i| &case.cmds[*i]).collect();
+            relation_fail = Some((format!("C20|a-refused-command-changed-the-entries-of-the-others|{}", classify(which[0])), format!("commands {:?}: the refused ones {:?} left out, the others answer {:?}; with them {:?}", case.cmds, which, reduced, kept)));
+        }
+    }
+
     let body = body_of(case, &db_http, &new_http);
     let mut out = Outcome::ok(refusal_then_accept);
+    if relation_fail.is_some() {
+        out.fail = relation_fail;
+        return out;
+    }
     if refusal_then_accept {
         out.classes.push("refused-then-accepted");
     }
